@@ -91,3 +91,159 @@ Example c11_v5_execute :
   decode_execute 5 (ref_execute 5 [1;2] [9] 6 [0;0;0;0]) =
   Ok {| x_id := [1;2]; x_rmid := [9]; x_cl := 6; x_params := [0;0;0;0] |}.
 Proof. vm_compute. reflexivity. Qed.
+
+(** ---- added: stronger statements (proofs in Proofs/*2.v) ---- *)
+From Coq Require Import List ZArith NArith Bool.
+From CqlProxy Require Import Lib.Val Lib.Util Lib.Wire Model.Codec Proofs.CodecProofs Proofs.CodecProofs2.
+
+(** *** Every accepted body, not only reference layouts *)
+
+(** QUERY: whatever byte list the decoder accepts splits into a consumed prefix [p] of length
+    4 + |query| + 2 and the parameters, kept verbatim; the query string and consistency depend
+    on [p] alone (any other bytes after [p] just become the parameters); and every strict prefix
+    of [p] -- a body truncated anywhere up to and including the consistency -- is rejected with
+    an error. *)
+Theorem c11_query_prefix :
+  forall b m, decode_query b = Ok m ->
+  exists p, b = p ++ q_params m /\ length p = (4 + length (q_query m) + 2)%nat /\
+    (forall t, decode_query (p ++ t) = Ok {| q_query := q_query m; q_cl := q_cl m; q_params := t |}) /\
+    (forall p', sprefix p' p -> exists e, decode_query p' = Err e).
+Proof. exact decode_query_prefix. Qed.
+Print Assumptions c11_query_prefix.
+
+(** EXECUTE: the same, in every protocol version (with and without result-metadata id). *)
+Theorem c11_execute_prefix :
+  forall v b m, decode_execute v b = Ok m ->
+  exists p, b = p ++ x_params m /\
+    length p = (2 + length (x_id m) + (if supports_rmid v then 2 + length (x_rmid m) else 0) + 2)%nat /\
+    (forall t, decode_execute v (p ++ t) =
+               Ok {| x_id := x_id m; x_rmid := x_rmid m; x_cl := x_cl m; x_params := t |}) /\
+    (forall p', sprefix p' p -> exists e, decode_execute v p' = Err e).
+Proof. exact decode_execute_prefix. Qed.
+Print Assumptions c11_execute_prefix.
+
+(** BATCH: the same; the consumed prefix is type, count, the children exactly as re-encoded
+    (in length), consistency. *)
+Theorem c11_batch_prefix :
+  forall b m, decode_batch b = Ok m ->
+  exists p, b = p ++ b_params m /\
+    length p = (1 + 2 + length (concat (map encode_child (b_children m))) + 2)%nat /\
+    (forall t, decode_batch (p ++ t) =
+               Ok {| b_type := b_type m; b_children := b_children m; b_cl := b_cl m; b_params := t |}) /\
+    (forall p', sprefix p' p -> exists e, decode_batch p' = Err e).
+Proof. exact decode_batch_prefix. Qed.
+Print Assumptions c11_batch_prefix.
+
+(** Truncation, stated with [firstn]: cutting ANY accepted body at any offset inside its leading
+    part yields an error (never an acceptance with other fields, never a panic). *)
+Theorem c11_truncated_rejected :
+  (forall b m k, decode_query b = Ok m -> (k < length b - length (q_params m))%nat ->
+     exists e, decode_query (firstn k b) = Err e) /\
+  (forall v b m k, decode_execute v b = Ok m -> (k < length b - length (x_params m))%nat ->
+     exists e, decode_execute v (firstn k b) = Err e) /\
+  (forall b m k, decode_batch b = Ok m -> (k < length b - length (b_params m))%nat ->
+     exists e, decode_batch (firstn k b) = Err e).
+Proof.
+  split; [exact truncated_query_rejected|split; [exact truncated_execute_rejected|exact truncated_batch_rejected]].
+Qed.
+Print Assumptions c11_truncated_rejected.
+
+(** ... in particular for every reference-layout body cut inside its leading part. *)
+Theorem c11_truncated_ref_query_rejected :
+  forall q cl tail k, len31 q -> cl < 65536 -> (k < length (ref_query_lead q cl))%nat ->
+    exists e, decode_query (firstn k (ref_query q cl tail)) = Err e.
+Proof. exact truncated_ref_query_rejected. Qed.
+Print Assumptions c11_truncated_ref_query_rejected.
+
+Theorem c11_truncated_ref_execute_rejected :
+  forall v id rmid cl tail k,
+    id <> [] -> len16 id -> (supports_rmid v = true -> rmid <> [] /\ len16 rmid) -> cl < 65536 ->
+    (k < length (ref_execute_lead v id rmid cl))%nat ->
+    exists e, decode_execute v (firstn k (ref_execute v id rmid cl tail)) = Err e.
+Proof. exact truncated_ref_execute_rejected. Qed.
+Print Assumptions c11_truncated_ref_execute_rejected.
+
+Theorem c11_truncated_ref_batch_rejected :
+  forall t cs cl tail k,
+    t <= 2 -> Forall wf_child cs -> N.of_nat (length cs) < 65536 -> cl < 65536 ->
+    (k < length (ref_batch_lead t cs cl))%nat ->
+    exists e, decode_batch (firstn k (ref_batch t cs cl tail)) = Err e.
+Proof. exact truncated_ref_batch_rejected. Qed.
+Print Assumptions c11_truncated_ref_batch_rejected.
+
+(** *** Re-encoding what was decoded *)
+
+(** EXECUTE: re-encoding reproduces EVERY accepted body exactly ([wf_bytes]: all elements < 256). *)
+Theorem c11_execute_reencodes_any :
+  forall v b m, wf_bytes b -> decode_execute v b = Ok m -> encode_execute v m = b.
+Proof. exact encode_decode_execute. Qed.
+Print Assumptions c11_execute_reencodes_any.
+
+(** QUERY: the unconditional identity is FALSE.  A query string declared with a negative length
+    decodes to "" (ReadLongString: length <= 0) and is written back with length 0: the six bytes
+    ff ff ff ff 00 01 come back as 00 00 00 00 00 01 (confirmed on the Go code). *)
+Theorem c11_query_reencodes_any_refuted :
+  exists b m, wf_bytes b /\ decode_query b = Ok m /\ encode_query m <> b /\ length (encode_query m) = length b.
+Proof. exact encode_decode_query_refuted. Qed.
+Print Assumptions c11_query_reencodes_any_refuted.
+
+(** QUERY, exact: re-encoding reproduces the body iff the declared length of the query string is
+    not negative; in general the output is the input with a negative length field zeroed. *)
+Theorem c11_query_reencodes_iff :
+  forall b m, wf_bytes b -> decode_query b = Ok m -> (encode_query m = b <-> lstr_neg b = false).
+Proof. exact encode_decode_query_iff. Qed.
+Print Assumptions c11_query_reencodes_iff.
+
+Theorem c11_query_reencodes_general :
+  forall b m, wf_bytes b -> decode_query b = Ok m ->
+    encode_query m = (if lstr_neg b then [0; 0; 0; 0] else firstn 4 b) ++ skipn 4 b.
+Proof. exact encode_decode_query_gen. Qed.
+Print Assumptions c11_query_reencodes_general.
+
+(** ... hence always when the decoded query string is not empty. *)
+Theorem c11_query_reencodes_nonempty :
+  forall b m, wf_bytes b -> decode_query b = Ok m -> q_query m <> [] -> encode_query m = b.
+Proof. exact encode_decode_query_nonempty. Qed.
+Print Assumptions c11_query_reencodes_nonempty.
+
+(** BATCH: same defect through a child's query string (00 0001 00 ffffffff 0000 0001), same
+    exact condition ([batch_neg]: some decoded query-string child is declared with negative
+    length); the length never changes. *)
+Theorem c11_batch_reencodes_any_refuted :
+  exists b m, wf_bytes b /\ decode_batch b = Ok m /\ encode_batch m <> b.
+Proof. exact encode_decode_batch_refuted. Qed.
+Print Assumptions c11_batch_reencodes_any_refuted.
+
+Theorem c11_batch_reencodes_iff :
+  forall b m, wf_bytes b -> decode_batch b = Ok m -> (encode_batch m = b <-> batch_neg b = false).
+Proof. exact encode_decode_batch_iff. Qed.
+Print Assumptions c11_batch_reencodes_iff.
+
+Theorem c11_batch_reencodes_nonempty :
+  forall b m, wf_bytes b -> decode_batch b = Ok m ->
+    Forall (fun c => ch_id c <> QStr []) (b_children m) -> encode_batch m = b.
+Proof. exact encode_decode_batch_nonempty. Qed.
+Print Assumptions c11_batch_reencodes_nonempty.
+
+Theorem c11_batch_reencode_keeps_length :
+  forall b m, decode_batch b = Ok m -> length (encode_batch m) = length b.
+Proof. exact encode_decode_batch_length. Qed.
+Print Assumptions c11_batch_reencode_keeps_length.
+
+(** Re-encoding is semantically stable in all three codecs, canonical body or not: what was
+    decoded, re-encoded with any 16-bit consistency, decodes to the same message with that
+    consistency. *)
+Theorem c11_reencode_stable :
+  (forall b m cl', wf_bytes b -> decode_query b = Ok m -> cl' < 65536 ->
+     decode_query (encode_query {| q_query := q_query m; q_cl := cl'; q_params := q_params m |}) =
+     Ok {| q_query := q_query m; q_cl := cl'; q_params := q_params m |}) /\
+  (forall v b m cl', wf_bytes b -> decode_execute v b = Ok m -> cl' < 65536 ->
+     decode_execute v (encode_execute v {| x_id := x_id m; x_rmid := x_rmid m; x_cl := cl'; x_params := x_params m |}) =
+     Ok {| x_id := x_id m; x_rmid := x_rmid m; x_cl := cl'; x_params := x_params m |}) /\
+  (forall b m cl', wf_bytes b -> decode_batch b = Ok m -> cl' < 65536 ->
+     decode_batch (encode_batch {| b_type := b_type m; b_children := b_children m; b_cl := cl'; b_params := b_params m |}) =
+     Ok {| b_type := b_type m; b_children := b_children m; b_cl := cl'; b_params := b_params m |}).
+Proof.
+  split; [exact decode_encode_query_stable|split; [exact decode_encode_execute_stable|exact decode_encode_batch_stable]].
+Qed.
+Print Assumptions c11_reencode_stable.
